@@ -213,6 +213,10 @@ def mstr(v):
     """String form used when a value is inserted (C19's ustr table)."""
     if isinstance(v, str):
         return v
+    if isinstance(v, bytes):
+        # next to other pieces a byte string is decoded with the template's
+        # encoding (the generators use the default one)
+        return v.decode('utf-8')
     if isinstance(v, BaseException):
         if not v.args:
             return ''
